@@ -269,6 +269,34 @@ func execLossy(t *testing.T, plan *simkit.Plan) *simkit.Result {
 				s.Violate("C09", "result-differs-from-disk", "lossy", "transition at %q reported %s, the root holds %s", tr.Path, render(results[i]), render(on))
 			}
 		}
+		// Nothing but the transfer is disturbed in this scenario: a planned file
+		// that did not make it into the root had no usable staged content, and
+		// that has to be reported as missing files (the controller stages again
+		// at once on that signal; a mere problem makes it wait for the next
+		// filesystem event).
+		unplaced := ""
+		for i, tr := range transitions {
+			walk(tr.New, tr.Path, func(p string, planned *core.Entry) {
+				if planned.Kind != core.EntryKind_File {
+					return
+				}
+				rel := strings.TrimPrefix(strings.TrimPrefix(p, tr.Path), "/")
+				old := lookup(tr.Old, rel)
+				if old != nil && old.Kind == core.EntryKind_File && string(old.Digest) == string(planned.Digest) {
+					return // only the mode was to change: no content needed
+				}
+				got := lookup(results[i], rel)
+				if (got == nil || got.Kind != core.EntryKind_File || string(got.Digest) != string(planned.Digest)) && unplaced == "" {
+					unplaced = p
+				}
+			})
+		}
+		if unplaced != "" {
+			s.Count("probe.unplaced_files", 1)
+			if !missing {
+				s.Violate("C10", "missing-files-not-reported", "Transition", "the planned file %q did not reach the root (its transfer was corrupt, truncated, mismatched or lost), yet the transition does not report missing files (%d problems)", unplaced, len(problems))
+			}
+		}
 		if incomplete && !missing && len(problems) == 0 {
 			s.Violate("C10", "silent-failure", "Transition", "planned content did not reach the root, yet neither missing files nor a problem was reported")
 		}
